@@ -167,4 +167,30 @@ def C09(s, known):
                 assumptions=["the arbitrary-bytes part is seeded exploration judged by the specification, not exhaustive"])
 
 
-PLANS = {"C09": C09, "C11": C11, "C05": C05, "C04": C04, "C16": C16, "C01": C01, "C02": C02, "C06": C06, "C07": C07, "C08": C08, "C17": C17, "C15": C15, "C14": C14, "C13": C13, "C03": C03}
+def C12(s, known):
+    s.build(race=(s.tier != "quick"))
+    # the iterator: every interleaving for trees up to 6 nodes, channel capacity 1..2 (abstracting 100), consumer stopping at any node or never
+    for cap in (1, 2):
+        for stop in ((0, 1, 3, 6) if s.tier == "quick" else range(0, 7)):
+            s.model("IterVisitor", cfg="IterVisitorMC.cfg", workers=2, constants={"N": 6, "Cap": cap, "StopAt": stop})
+    m = s.drive("c12")
+    s.validate(m, "C12Trace", known=known, shard=1000)
+    return dict(level="model_checking",
+                explanation="IterVisitor.tla (PlusCal): producer goroutine, bounded channel, consumer with early exit and drain - every interleaving: "
+                            "document order, exact prefix, no leaked producer, termination. Runs: each data-producing command repeated k times across "
+                            "GOMAXPROCS, --debug, stdin/-/FILE, stdout/-o; TLC requires one (success, output sha) per request class",
+                assumptions=["with k repetitions a 2-way order flip escapes with probability 2^-(k-1)"])
+
+
+def C10(s, known):
+    s.build()
+    s.model("TheoryMC", workers=4)
+    m = s.drive("c10")
+    s.validate(m, "PipeTrace", cfg="C10Trace.cfg", known=known, shard=max(10, len_records(m) // 12 + 1))
+    return dict(level="model_checking",
+                explanation="TheoryMC: Parse(Print(x)) = x on the interval domain (model). PipeTrace: text -> real text conv -> real write: the events must be "
+                            "the piece Piece.tla assigns to the instances Conv.tla computes from the text (C01/C02/C07 predicates); every scalar value survives "
+                            "write parse; write conv -c cmt | write plays the original plus chord-name texts")
+
+
+PLANS = {"C10": C10, "C12": C12, "C09": C09, "C11": C11, "C05": C05, "C04": C04, "C16": C16, "C01": C01, "C02": C02, "C06": C06, "C07": C07, "C08": C08, "C17": C17, "C15": C15, "C14": C14, "C13": C13, "C03": C03}
